@@ -370,7 +370,8 @@ Analysis ==
         aI   == ArcNorm(xs, "P")
         drF  == [j \in 1..Len(kp) |-> d.r[kp[j]]]
         inv(p) == CHOOSE j \in 1..Len(kp) : kp[j] = p
-        visI == \A j \in 1..Len(fixedAt) : aI.r[inv(fixedAt[j])] = ArcNorm(Bare(Tpl, 1), "P").r[j]
+        visI == (\E j \in 1..Len(fixedAt) : s[fixedAt[j]] \in {"d", "b"}) \/      \* (lexical templates: not applicable)
+                \A j \in 1..Len(fixedAt) : aI.r[inv(fixedAt[j])] = ArcNorm(Bare(Tpl, 1), "P").r[j]
         aP   == ArcNorm(s, "P")
         hasB == \E i \in 1..Len(s) : s[i] = "b"
         aV   == IF hasB THEN ArcNorm(s, "V") ELSE aP
